@@ -38,6 +38,7 @@ ASSUMPTIONS = ["inputs handed to eval have the declared number of parties and bi
 CMP_OPS = {"Lt", "Le", "Gt", "Ge", "Eq", "Ne"}
 CMP_CALLS = {"std::cmp::PartialOrd::lt", "std::cmp::PartialOrd::le", "std::cmp::PartialOrd::gt", "std::cmp::PartialOrd::ge",
              "std::cmp::PartialEq::eq", "std::cmp::PartialEq::ne"}
+SEARCH_ADAPTORS = {"std::iter::Iterator::find", "std::iter::Iterator::any", "std::iter::Iterator::all", "std::iter::Iterator::position"}
 INDEX_CALLS = ("std::ops::Index::index", "std::ops::IndexMut::index_mut")
 SELF1 = ("arg", 1)
 
@@ -144,18 +145,94 @@ def examined_origins(ctx, fid):
                         res.append(x)
         return res
 
-    def rejecting(local, b):
+    err_blocks = {x for x, blk in enumerate(body.blocks) for st in blk["stmts"]
+                  if st["k"] == "assign" and st["place"]["l"] == 0 and st["rv"]["k"] == "aggregate" and st["rv"].get("variant") == "Err"}
+
+    def bool_rejecting(local, b, idx, outcomes=(True, False)):
+        """One outcome of the bool `local` (defined in block b: by statement idx, or by the call ending the block) admits
+        no way past the error returns: the result may travel through other bool locals (`let ok = match g { .. => x < i && y < i }`)
+        before it is branched on.  Coming back to the definition (the next loop iteration) counts as getting past."""
+        if body.locals[local]["ty"] != "bool" or not err_blocks:
+            return False
+        for v in outcomes:
+            if idx is None:
+                starts = [(s, 0) for s in body.succs(b)]
+            else:
+                starts = [(b, idx + 1)]
+            goals = set(body.returns()) | {b}
+            if all(mir.bool_consistent_path(body, s, goals, env={local: v}, blocked=err_blocks, start_stmt=i) is None for s, i in starts):
+                return True
+        return False
+
+    def rejecting(local, b, idx=None):
         for x in switch_after(local, b):
             if any(leads_to_err(body, s) for s in body.succs(x)):
                 return True
-        return False
+        return bool_rejecting(local, b, idx)
+
+    def some_and(b):
+        """`opt.is_some_and(pred)` calls whose receiver is the Option produced in block b and whose `false` rejects."""
+        return [x for x, t in body.calls() if t["func"].get("declared") == "std::option::Option::<T>::is_some_and" and len(t["args"]) == 2 and
+                not t["dest"]["p"] and any(r[:2] == ("call", b) for (r, p) in body.trace_operand(t["args"][0], through={})) and
+                bool_rejecting(t["dest"]["l"], x, None, outcomes=(False,))]
+
+    def predicate(clos, item, seg):
+        """The comparisons / bitmap lookups of a closure predicate whose verdict rejects: its item ranges over `item`, its
+        captures are values of this function."""
+        for (r, p) in body.trace(clos["place"], through={}) if clos["k"] in ("copy", "move") else ():
+            if r[0] != "agg":
+                continue
+            rv = body.blocks[r[1]]["stmts"][r[2]]["rv"]
+            cid = rv.get("closure")
+            if not cid or not ctx.has_fn(cid):
+                continue
+            cb = ctx.body(cid)
+
+            def lift(tr):
+                res = set()
+                for (r2, p2) in tr:
+                    if r2 == ("arg", 2):
+                        for (r3, p3) in item:
+                            res.add((r3, tuple(p3) + tuple(p2)))
+                    elif r2 == ("arg", 1) and p2 and p2[0].isdigit() and int(p2[0]) < len(rv["ops"]):
+                        for (r3, p3) in body.trace_operand(rv["ops"][int(p2[0])]):
+                            res.add((r3, tuple(p3) + tuple(p2[1:])))
+                    elif r2[0] != "arg":
+                        res.add((("closure",) + tuple(r2), tuple(p2)))
+                return res
+            # what the predicate returns
+            ret = set()
+            for d in cb.defs().get(0, []):
+                if d[0] == "assign":
+                    rv0 = d[3]["rv"]
+                    ops0 = [rv0[k] for k in ("op", "x") if isinstance(rv0.get(k), dict)]
+                    for o in ops0:
+                        if o["k"] in ("copy", "move"):
+                            ret |= set(cb.trace(o["place"], through=protocol.DEREF_ONLY))
+            for cx, cblk in enumerate(cb.blocks):
+                if cblk["cleanup"]:
+                    continue
+                for st in cblk["stmts"]:
+                    if st["k"] == "assign" and st["rv"]["k"] == "binop" and st["rv"]["op"] in CMP_OPS:
+                        for side in ("l", "r"):
+                            out.append((lift(cb.trace_operand(st["rv"][side])), st["sp"], "comparison %s in the predicate of %s" % (st["rv"]["op"], seg)))
+                ct = cblk["term"]
+                if ct and ct["k"] == "call" and (ct["func"].get("declared") or "") in CMP_CALLS:
+                    for a in ct["args"]:
+                        out.append((lift(cb.trace_operand(a)), ct["sp"], "comparison %s in the predicate of %s" % (mir.last_seg(mir.callee(ct) or ""), seg)))
+                if ct and ct["k"] == "call" and (ct["func"].get("declared") or "") in INDEX_CALLS and len(ct["args"]) == 2:
+                    # a bitmap lookup that is (the negation of) what the predicate answers
+                    if any((r2[0] == "call" and r2[1] == cx) or (r2[0] == "rv" and _unop_of_call(cb, r2, cx)) for (r2, p2) in ret):
+                        coll = lift(cb.trace_operand(ct["args"][0]))
+                        ty = ct["args"][0]["place"]["ty"] if ct["args"][0]["k"] in ("copy", "move") else "?"
+                        out.append((lift(cb.trace_operand(ct["args"][1])), ct["sp"], "lookup in %s (predicate of %s)" % (ty, seg)))
 
     for b, blk in enumerate(body.blocks):
         if blk["cleanup"]:
             continue
         for st in blk["stmts"]:
             if st["k"] == "assign" and st["rv"]["k"] == "binop" and st["rv"]["op"] in CMP_OPS and not st["place"]["p"]:
-                if rejecting(st["place"]["l"], b):
+                if rejecting(st["place"]["l"], b, blk["stmts"].index(st)):
                     for side in ("l", "r"):
                         out.append((body.trace_operand(st["rv"][side]), st["sp"], "comparison %s" % st["rv"]["op"]))
         t = blk["term"]
@@ -188,6 +265,20 @@ def examined_origins(ctx, fid):
         elif seg == "get" and ("slice" in (mir.callee(t) or "") or "Vec" in (mir.callee(t) or "")) and len(t["args"]) == 2:
             if rejecting(dest, b):
                 out.append((body.trace_operand(t["args"][1]), t["sp"], "checked get()"))
+            else:
+                # `.get(i).is_some_and(|&n| j < n)` with a rejecting `false`: None rejects, and so does the predicate
+                for x in some_and(b):
+                    out.append((body.trace_operand(t["args"][1]), t["sp"], "checked get()"))
+                    item = {(r, tuple(p) + ("[]",)) for (r, p) in body.trace_operand(t["args"][0])}
+                    predicate(body.term(x)["args"][1], item, "is_some_and")
+        elif dec in SEARCH_ADAPTORS and len(t["args"]) == 2 and rejecting(dest, b):
+            # `xs.iter().find(|&&o| o >= n)` / any / all / position with a rejecting edge on the result
+            clos = t["args"][1]
+            if clos["k"] in ("copy", "move"):
+                cids = [body.blocks[r[1]]["stmts"][r[2]]["rv"].get("closure") for (r, p) in body.trace(clos["place"], through={}) if r[0] == "agg"]
+                for cid in cids:
+                    if cid:
+                        predicate(clos, closure_item_origins(ctx, body, cid), seg)
     return out
 
 
